@@ -90,6 +90,12 @@ func DrawDAG(r *rng.R) *Entry {
 		m.Nodes = append(m.Nodes, n)
 		vals = append(vals, out)
 	}
+	if r.Chance(1, 15) {
+		// one node (never the first) carries an attribute its operator refuses: every Run fails there, after the
+		// nodes before it have run
+		k := r.Range(1, len(m.Nodes)-1)
+		m.Nodes[k].Attrs = append(append([]mb.Attr{}, m.Nodes[k].Attrs...), refusedAttr(r, m.Nodes[k].Op))
+	}
 	for _, n := range m.Nodes {
 		e.Ops = append(e.Ops, n.Op)
 	}
